@@ -323,6 +323,51 @@ func C10shares(p *load.Program, run *report.Run) {
 		run.Undecided("input-sharing", "gmw.Network.run", "", "function not found")
 		return
 	}
+	// the interpretation below starts every party with a zero accumulator self.shared; that is an
+	// assumption about what precedes run(): it holds iff the exported entry point assigns a fresh zero
+	// big integer to the field unconditionally before calling run (otherwise a second Run on the same
+	// network starts from the previous run's share)
+	run.Rule("run-state-reset", "Network.Run assigns a fresh zero big integer to the XOR accumulator self.shared on every path before it calls run, so every evaluation starts its input sharing from zero")
+	if _, entry := dispatch.FindFunc(p, "gmw", "Network", "Run"); entry == nil {
+		run.Undecided("run-state-reset", "gmw.Network.Run", "", "function not found")
+	} else {
+		reset, called := false, false
+		for _, st := range effectiveQ(pkg.TypesInfo, entry.Body.List) {
+			if containsCall(st, "run") {
+				called = true
+				break
+			}
+			as, ok := st.(*ast.AssignStmt)
+			if !ok || as.Tok != token.ASSIGN || len(as.Lhs) != 1 || len(as.Rhs) != 1 {
+				continue
+			}
+			sel, ok := as.Lhs[0].(*ast.SelectorExpr)
+			if !ok || sel.Sel.Name != "shared" {
+				continue
+			}
+			if c, ok := as.Rhs[0].(*ast.CallExpr); ok {
+				switch types.ExprString(c.Fun) {
+				case "big.NewInt":
+					if tv, ok := pkg.TypesInfo.Types[c.Args[0]]; ok && tv.Value != nil && tv.Value.String() == "0" {
+						reset = true
+					}
+				case "new":
+					if isBigInt(pkg.TypesInfo.TypeOf(c)) {
+						reset = true
+					}
+				}
+			}
+		}
+		run.Count("run-entry-points", 1)
+		switch {
+		case !called:
+			run.Undecided("run-state-reset", "gmw.Network.Run", p.Rel(entry.Pos()), "no top-level call of run found")
+		case !reset:
+			run.Violate("run-state-reset", "gmw.Network.Run/self.shared", p.Rel(entry.Pos()), "the accumulator self.shared is not unconditionally reset to zero before run: a later Run on the same network XORs the new shares into the previous run's value", nil)
+		default:
+			run.OK("run-state-reset", "gmw.Network.Run/self.shared", p.Rel(entry.Pos()), "fresh zero before run")
+		}
+	}
 	for _, n := range partyCounts() {
 		run.Count("party-counts", 1)
 		parties := make([]*shareParty, n)
